@@ -29,3 +29,15 @@ reg("C30", "exploration", "runtime monitor: left-fold reference model for List/L
 reg("C31", "exploration", "runtime monitor: reference printer/parser round-trip — random grammar expression trees printed with minimal parentheses must parse back to the same tree; damaged texts must be rejected",
     "tpl/parser.ParseFile runs on every printed tree; the shape of the returned tree is compared with the generator's tree.",
     "The harness printer restates the documented precedence unary > ++ > % > sequence > |.")
+reg("C34", "exploration", "runtime monitor: reference model (30-line restatement of the selection/classification rule) compared with ParseFSDir/ParseFSEntry on generated in-memory directories and class-kind configurations",
+    "Each generated directory is parsed by the real ParseFSDir over a harness FileSystem (with sub-directories); the returned package map must equal the model's; every regular entry is also passed through ParseFSEntry.",
+    "File contents are tiny valid sources (or valid package clause + late syntax error); the model restates the property text.")
+reg("C35", "exploration", "runtime monitor over an exhaustively enumerated space: every argument list up to length 5 (quick) / 6 (thorough) over a 14-symbol class-complete alphabet, partition model vs ParseAll",
+    "The argument-list space up to the bound is enumerated completely (exhaustive=true); classification of a single argument comes from ParseOne on the singleton and is pinned by 12 documented examples.",
+    "The alphabet covers file-like, local-directory, package-path and edge-case arguments; longer lists are not explored.")
+reg("C36", "exploration", "runtime monitor: recorded file-system histories on a real temporary module + sequential model of {(name,size,mtime)}; equal model states <=> equal PkgHash over all pairs of points of a history",
+    "Every operation of a generated history is applied to a real directory and Importer.PkgHash is observed after each; mtimes are set explicitly so the oracle never reads the clock.",
+    "Same-size same-mtime content edits, symlinks and special files are outside the property.")
+reg("C38", "exploration", "runtime monitor: frame/unframe round-trip through readers delivering 1..n bytes per Read + 16 classes of hostile frames followed by intact frames (no panic, error-or-message, no over/under-read)",
+    "Messages written by the real HeaderFramer writer are read back by the real reader and compared as JSON values with ids compared exactly; damaged frames must produce errors and leave the stream positioned exactly after the declared length.",
+    "Methods are non-empty UTF-8; top-level params/results are never the literal null.")
